@@ -131,7 +131,6 @@ Definition fixpoint_case (t : ty) (obs_v : value) (same_value same_bytes consume
 
 From Prophy Require Import PcModel.
 
-Definition stiff_code (s : stiff) : Z := match s with Fixed => 0 | Dynamic => 1 | Unlimited => 2 end.
 
 (* C04, prophyc side. obs = [byte_size; alignment; kind] and the per-member lists
    (byte_size, alignment, padding) of a struct node; for unions only obs. *)
